@@ -1,0 +1,29 @@
+package syntax
+
+import (
+	"context"
+
+	"github.com/arr-ai/arrai/rel"
+)
+
+type sandboxCtxKey int
+
+const (
+	stdlibInEffectKey sandboxCtxKey = iota
+)
+
+// withStdlibInEffect records the `//` binding that the source being compiled and evaluated was
+// given, so that expressions evaluated outside any lexical scope (macros, at parse time) see the
+// same standard library as the rest of the source instead of the full library.
+func withStdlibInEffect(ctx context.Context, stdlib rel.Expr) context.Context {
+	return context.WithValue(ctx, stdlibInEffectKey, stdlib)
+}
+
+// baseScope returns the scope for expressions evaluated outside any lexical scope: it binds `//`
+// to the standard library in effect, if one was recorded, and is empty otherwise.
+func baseScope(ctx context.Context) rel.Scope {
+	if stdlib, ok := ctx.Value(stdlibInEffectKey).(rel.Expr); ok {
+		return rel.EmptyScope.With("//", stdlib)
+	}
+	return rel.EmptyScope
+}
